@@ -23,19 +23,18 @@ def partition(hs, nworkers):
     by_build = {}
     for h in hs:
         by_build.setdefault(h.build, []).append(h)
-    total = sum(h.cost for h in hs) or 1.0
     groups = []
-    # number of workers per build proportional to cost, at least 1
+    # one worker per build, the remaining workers one at a time to the build whose workers carry
+    # the highest cost each (never more workers than harnesses)
     builds = sorted(by_build)
-    alloc = {}
-    for b in builds:
-        c = sum(h.cost for h in by_build[b])
-        alloc[b] = max(1, min(len(by_build[b]), int(round(nworkers * c / total))))
-    while sum(alloc.values()) > max(nworkers, len(builds)):
-        b = max(alloc, key=lambda k: alloc[k])
-        if alloc[b] == 1:
+    cost = {b: sum(h.cost for h in by_build[b]) or 1.0 for b in builds}
+    alloc = {b: 1 for b in builds}
+    for _ in range(max(0, nworkers - len(builds))):
+        cand = [b for b in builds if alloc[b] < len(by_build[b])]
+        if not cand:
             break
-        alloc[b] -= 1
+        b = max(cand, key=lambda k: cost[k] / alloc[k])
+        alloc[b] += 1
     for b in builds:
         bins = [[] for _ in range(alloc[b])]
         loads = [0.0] * alloc[b]
